@@ -10,7 +10,8 @@
 (* PENDING value (confirmed + the pool, what a pre-execution reads).       *)
 (* Transactions: NewAccount, SetAccountAcl, SetMethodAcl of the $acl       *)
 (* kernel contract, the binding of a contract to its owning account, a     *)
-(* call of the contract method, and Mine (the pool becomes confirmed).     *)
+(* call of the contract method, a transfer out of an account's funds, and  *)
+(* Mine (the pool becomes confirmed).                                      *)
 (* Rule r in 1..3 means "key Kr alone" (weight 1, accept 1); rule          *)
 (* evaluation itself is Acl!Sat (checked exhaustively in Acl.tla).         *)
 (*                                                                         *)
@@ -108,6 +109,16 @@ Call(k) ==
   /\ UNCHANGED <<conf, pend, mconf, mpend, own, viol>>
   /\ Log([op |-> "call", k |-> k, res |-> res])
 
+(* a transfer out of account a's funds (verifyUTXOPermission) with AuthRequire = [Uri(a, k, via)], signed by k: *)
+(* the account must exist on the confirmed chain and its rule in force there must be satisfied               *)
+Spend(a, k, via) ==
+  LET uri == Uri(a, k, via) IN
+  \E res \in {IF Authorised(FALSE, a, uri) THEN "accept" ELSE "reject"}
+               \cup (IF Authorised(KF_IntermediateAKCounts, a, uri) THEN {"accept"} ELSE {}) :
+    /\ viol' = IF res = "accept" /\ ~Authorised(FALSE, a, uri) THEN viol \cup {"spend"} ELSE viol
+    /\ UNCHANGED <<conf, pend, mconf, mpend, own>>
+    /\ Log([op |-> "spend", a |-> a, k |-> k, via |-> via, res |-> res])
+
 (* a block confirms the pool *)
 Mine ==
   /\ conf' = pend /\ mconf' = mpend
@@ -121,6 +132,7 @@ Next == /\ Len(hist) < MaxOps
            \/ \E k \in KeyIds : Bind(k)
            \/ \E r \in KeyIds, k \in KeyIds, via \in {0} \cup KeyIds : SetM(r, k, via)
            \/ \E k \in KeyIds : Call(k)
+           \/ \E a \in Accts, k \in KeyIds, via \in {0} \cup KeyIds : Spend(a, k, via)
            \/ Mine
 Spec == Init /\ [][Next]_vars
 View == <<conf, pend, mconf, mpend, own, viol>>
@@ -128,7 +140,7 @@ View == <<conf, pend, mconf, mpend, own, viol>>
 Obs == [conf |-> conf, pend |-> pend, mconf |-> mconf, mpend |-> mpend, own |-> own]
 
 TypeOK == /\ conf \in [Accts -> 0..3] /\ pend \in [Accts -> 0..3] /\ mconf \in 0..3 /\ mpend \in 0..3
-          /\ own \in {"none", "pending", "confirmed"} /\ viol \subseteq {"account", "method"}
+          /\ own \in {"none", "pending", "confirmed"} /\ viol \subseteq {"account", "method", "spend"}
 (* the property (IDEAL): no admitted change without the confirmed rule of the owning account satisfied *)
 ChangesAuthorised == viol = {}
 (* a confirmed rule only ever becomes what the pool held; an account never disappears *)
